@@ -131,7 +131,7 @@ def main():
             na.append({'property_id': pid, 'reason': PENDING_REASON})
     manifest = {
         'version': 1,
-        'setup_cmd': 'cd /verif/coq && coq_makefile -f _CoqProject -o Makefile && timeout 3000 make -j6',
+        'setup_cmd': '/verif/tools/setup.sh',
         'hooks': {
             'guard': 'FURAX_VERIF',
             'enable': 'no source hooks are needed: every observation point is public API (checks export FURAX_VERIF=1 anyway)',
